@@ -298,6 +298,29 @@ func Worker(prop string, st Step, k, K, start, seed int, curFile string, out *bu
 	idx := -1
 	nf := 0
 	samples := 0
+	if ct, ok := CaseTiers[st.Tier]; ok {
+		ct.Run(st, func(i int) bool {
+			if (i+seed)%K != k || i < start {
+				return false
+			}
+			cf.WriteAt([]byte(fmt.Sprintf("%-12d", i)), 0)
+			return true
+		}, stats, func(r Replay) {
+			nf++
+			stats.Findings++
+			if nf <= 40 {
+				enc.Encode(workerMsg{Kind: "F", Replay: &r})
+			}
+		})
+		for _, smp := range caseSamples {
+			enc.Encode(workerMsg{Kind: "X", Sample: smp})
+		}
+		stats.StepsSeen = verifrt.StepsSeen
+		stats.ActiveSeen = verifrt.ActiveSeen
+		enc.Encode(workerMsg{Kind: "S", Stats: stats})
+		out.Flush()
+		return
+	}
 	Tiers[st.Tier].Gen(st.Size, func(s Scenario) {
 		idx++
 		if (idx+seed)%K != k || idx < start {
@@ -324,6 +347,15 @@ func Worker(prop string, st Step, k, K, start, seed int, curFile string, out *bu
 	}
 	enc.Encode(workerMsg{Kind: "S", Stats: stats})
 	out.Flush()
+}
+
+// caseSamples collects a few written-out cases of custom engines (evidence samples).
+var caseSamples []string
+
+func noteSample(mk func() string) {
+	if len(caseSamples) < 1 {
+		caseSamples = append(caseSamples, mk())
+	}
 }
 
 // confirm replays a finding twice and requires identical observations (a divergence
@@ -357,6 +389,9 @@ type RunResult struct {
 // nthScenario regenerates scenario idx of a tier.
 func nthScenario(st Step, idx int) *Scenario {
 	var res *Scenario
+	if _, ok := Tiers[st.Tier]; !ok {
+		return nil
+	}
 	i := -1
 	Tiers[st.Tier].Gen(st.Size, func(s Scenario) {
 		i++
